@@ -5,7 +5,8 @@
    The flag fx selects the code as it is (false) or the code with fixes/C12-five-segment-target-neg-inf.patch (true); the
    FKM-Goodman theorems hold for both.  Only statements, `exact`, Print Assumptions. *)
 From Coq Require Import QArith Qabs Bool List.
-From PL Require Import Strength.MeanStress Strength.MeanStressInv Strength.MeanStressGoodman Strength.MeanStressFive Strength.MeanStressRebin.
+From PL Require Import Strength.MeanStress Strength.MeanStressInv Strength.MeanStressGoodman Strength.MeanStressFive Strength.MeanStressRebin
+  Strength.MeanStressOrder.
 Import ListNotations.
 Open Scope Q_scope.
 
@@ -138,6 +139,42 @@ Theorem matrix_conserves_cycles (b0 : Q) (breaks ranges cycles : list Q) :
   qsum (rebin (b0 :: breaks) ranges cycles) == qsum cycles.
 Proof. exact (MeanStressRebin.rebin_conserves_cycles b0 breaks ranges cycles). Qed.
 
+(* ---- listing order of the segments (diagrams built by HaighDiagram.from_dict).  schedule_ord fo: fo = false is the code as it
+   is (transform_state_ord false = transform_state by definition), fo = true the code with fixes/C12-segment-listing-order.patch.
+   The invariant holds for EVERY listing; what depends on the listing is whether the cycle arrives at the goal. *)
+Theorem segment_walk_invariant_any_listing (fo fx : bool) (H : ExtQ -> Q) (D : list Seg) (G : ExtQ) (c : Cyc) :
+  good_diagram H D G -> cyc_okR (snd c) ->
+  fst (transform_state_ord fo fx D G c) * H (snd (transform_state_ord fo fx D G c)) == fst c * H (snd c) /\
+  cyc_okR (snd (transform_state_ord fo fx D G c)).
+Proof. exact (MeanStressOrder.transform_ord_invariant fo fx H D G c). Qed.
+
+(* the repair changes nothing for the diagrams of the two constructors (all theorems above carry over to the repaired code) *)
+Theorem listing_repair_keeps_fkm_goodman (fx : bool) (M M2 : Q) (G : ExtQ) (c : Cyc) :
+  transform_state_ord true fx (fkm_goodman_diagram M M2) G c = transform_state fx (fkm_goodman_diagram M M2) G c.
+Proof. exact (MeanStressOrder.repair_keeps_fkm fx M M2 G c). Qed.
+
+Theorem listing_repair_keeps_five_segment (fx : bool) (M0 M1 M2 M3 M4 R12 R23 : Q) (G : ExtQ) (c : Cyc) :
+  R12 < 1 -> R23 < 1 ->
+  transform_state_ord true fx (five_segment_diagram M0 M1 M2 M3 M4 R12 R23) G c
+  = transform_state fx (five_segment_diagram M0 M1 M2 M3 M4 R12 R23) G c.
+Proof. exact (MeanStressOrder.repair_keeps_five fx M0 M1 M2 M3 M4 R12 R23 G c). Qed.
+
+(* path independence "for any gap-free Haigh diagram" is FALSE for the code as it is: the FKM-Goodman diagram M = 3/10,
+   M2 = 1/10 listed in the natural order (-inf, 0), (0, 1), (1, inf); cycle of amplitude 1 at R = 2, goal R = 1/2: the cycle is
+   parked at R = -inf with amplitude 1, via R = -1 it arrives with 77/169 (= the constructor's listing, = the repaired code) *)
+Theorem natural_listing_refuted :
+  let Dn := fkm_natural (3#10) (1#10) in
+  let Dc := fkm_goodman_diagram (3#10) (1#10) in
+  let c := (1, Fin 2) in
+  transform_state true Dn (Fin (1#2)) c = (1, NegInf)
+  /\ ~ fst (transform_state true Dn (Fin (1#2)) (transform_state true Dn (Fin (-1)) c))
+       == fst (transform_state true Dn (Fin (1#2)) c)
+  /\ fst (transform_state true Dc (Fin (1#2)) c) == 77 # 169
+  /\ fst (transform_state_ord true true Dn (Fin (1#2)) c) == 77 # 169
+  /\ fst (transform_state_ord true true Dn (Fin (1#2)) (transform_state_ord true true Dn (Fin (-1)) c))
+     == fst (transform_state_ord true true Dn (Fin (1#2)) c).
+Proof. exact MeanStressOrder.natural_listing_refuted. Qed.
+
 Print Assumptions fkm_goodman_closed_form.
 Print Assumptions fkm_goodman_state_closed_form.
 Print Assumptions fkm_path_independent.
@@ -152,3 +189,7 @@ Print Assumptions five_segment_already_at_target_unchanged.
 Print Assumptions five_segment_neg_inf_refuted.
 Print Assumptions segment_walk_invariant.
 Print Assumptions matrix_conserves_cycles.
+Print Assumptions segment_walk_invariant_any_listing.
+Print Assumptions listing_repair_keeps_fkm_goodman.
+Print Assumptions listing_repair_keeps_five_segment.
+Print Assumptions natural_listing_refuted.
